@@ -50,7 +50,7 @@ func verifFastServer() (*Server, *Pool) {
 
 // verifFrame builds a DHCP request frame from client `who`: untagged / 802.1Q / QinQ (arbitrary PCP/DEI bits),
 // arbitrary xid, flags, IP id and TTL, message type t, 64-byte option area.
-func verifFrame(who int, t byte, tags int) []byte {
+func verifFrame(who int, t byte, tags int, relayCID []byte) []byte {
 	l2 := 14 + 4*tags
 	f := make([]byte, l2+20+8+240+64)
 	for i := 0; i < 6; i++ {
@@ -89,6 +89,13 @@ func verifFrame(who int, t byte, tags int) []byte {
 	copy(b[28:34], vMACs[who])
 	copy(b[236:240], []byte{0x63, 0x82, 0x53, 0x63})
 	b[240], b[241], b[242], b[243] = 53, 1, t, 255
+	if relayCID != nil {
+		// relayed: giaddr set, Option 82 with the circuit-id directly after the message type
+		copy(b[24:28], []byte{10, 9, 9, 9})
+		o82 := append([]byte{82, byte(2 + len(relayCID)), 1, byte(len(relayCID))}, relayCID...)
+		copy(b[243:], o82)
+		b[243+len(o82)] = 255
+	}
 	return f
 }
 
@@ -129,14 +136,37 @@ func VerifC03_FastpathAgreesWithServer() {
 	s, p := verifFastServer()
 	who := 0
 	tags := ndPick("tags", 3)
+	var cid []byte
+	relay := func(m *dhcpv4.DHCPv4, withCID bool) *dhcpv4.DHCPv4 {
+		if cid != nil {
+			m.GatewayIPAddr = net.IP{10, 9, 9, 9}
+			o := []byte{2, 3, 'r', 'i', 'd'}
+			if withCID {
+				o = append(append([]byte{1, byte(len(cid))}, cid...), o...)
+			}
+			m.UpdateOption(dhcpv4.OptGeneric(dhcpv4.OptionRelayAgentInformation, o))
+		}
+		return m
+	}
+	if tags == 0 && ndPick("relayed", 2) == 1 {
+		cid = vCIDs[1]
+	}
 	// the client obtains its lease through the slow path (DISCOVER, REQUEST)
-	off, err := s.handleDiscover(verifV4Plain(dhcpv4.MessageTypeDiscover, who))
+	off, err := s.handleDiscover(relay(verifV4Plain(dhcpv4.MessageTypeDiscover, who), true))
 	vAssume(err == nil && off != nil)
-	req := verifV4Plain(dhcpv4.MessageTypeRequest, who)
+	req := relay(verifV4Plain(dhcpv4.MessageTypeRequest, who), true)
 	req.UpdateOption(dhcpv4.OptRequestedIPAddress(off.YourIPAddr))
 	ack, err := s.handleRequest(req)
 	vAssume(err == nil && ack != nil && ack.MessageType() == dhcpv4.MessageTypeAck)
 	vRunPending()
+	if cid != nil && ndPick("renewal", 3) > 0 {
+		// a renewal in between: with the full Option 82, or with a relay that only adds its remote-id
+		ren := relay(verifV4Plain(dhcpv4.MessageTypeRequest, who), ndPick("renewal-has-circuit-id", 2) == 1)
+		ren.ClientIPAddr = off.YourIPAddr
+		rack, rerr := s.handleRequest(ren)
+		vAssume(rerr == nil && rack != nil && rack.MessageType() == dhcpv4.MessageTypeAck)
+		vRunPending()
+	}
 	if tags > 0 {
 		// QinQ / VLAN deployments key the cache by the tag pair
 		stag, ctag := uint16(0), uint16(200)
@@ -147,6 +177,7 @@ func VerifC03_FastpathAgreesWithServer() {
 		l.STag, l.CTag = stag, ctag
 		vAssume(s.updateFastPathCache(vMACs[who], l, p) == nil)
 	}
+	newCPE := (tags == 2 || cid != nil) && ndPick("frame-from-new-cpe", 2) == 1
 	ending := ndPick("then", 5) // 0: lease stays, 1: client releases, 2: lease expires + cleanup tick, 3: client declines, 4: lease expires, cleanup tick not yet run
 	switch ending {
 	case 1:
@@ -172,7 +203,23 @@ func VerifC03_FastpathAgreesWithServer() {
 		vTag("expired-before-cleanup-tick")
 	}
 	mt := byte(1 + 2*ndPick("request", 2)) // DISCOVER(1) or REQUEST(3)
-	frame := verifFrame(who, mt, tags)
+	// the frame comes from the subscriber's MAC, or (VLAN- or circuit-keyed deployments) from a replaced CPE on the same line
+	fwho := who
+	if newCPE {
+		fwho = 1
+	}
+	if ending != 4 { // (the known clock-domain finding is independent of the keying)
+		if tags == 2 {
+			vTag("qinq")
+		}
+		if cid != nil {
+			vTag("relayed")
+		}
+		if newCPE {
+			vTag("new-cpe-mac")
+		}
+	}
+	frame := verifFrame(fwho, mt, tags, cid)
 	orig := append([]byte(nil), frame...)
 	ktime := ndU64("ktime")
 	vAssume(ktime < 1<<59) // kernel monotonic clock: up to 18 years of uptime
@@ -202,7 +249,11 @@ func VerifC03_FastpathAgreesWithServer() {
 	vAssert(int(binary.BigEndian.Uint16(ip[2:4])) == len(out)-l2, "IPv4 total length differs from the frame length")
 	vAssert(int(binary.BigEndian.Uint16(udp[4:6])) == len(out)-l2-20, "UDP length inconsistent with the IPv4 length")
 	vAssert(verifIPSumOK(ip[:20]), "IPv4 header checksum of the reply is invalid")
-	vAssert(binary.BigEndian.Uint16(udp[0:2]) == 67 && binary.BigEndian.Uint16(udp[2:4]) == 68, "reply UDP ports are not 67->68")
+	wantDst := uint16(68)
+	if cid != nil {
+		wantDst = 67 // relayed: the reply goes back to the relay agent's server port
+	}
+	vAssert(binary.BigEndian.Uint16(udp[0:2]) == 67 && binary.BigEndian.Uint16(udp[2:4]) == wantDst, "reply UDP ports are not 67->68 (67->67 when relayed)")
 	ob := orig[l2+28:]
 	vAssert(b[0] == 2, "reply is not a BOOTREPLY")
 	vAssert(bytes.Equal(b[4:8], ob[4:8]) && bytes.Equal(b[10:12], ob[10:12]) && bytes.Equal(b[28:44], ob[28:44]), "reply changes xid, flags or client hardware address")
@@ -215,11 +266,15 @@ func VerifC03_FastpathAgreesWithServer() {
 	t53 := verifOpt(opts, 53)
 	vAssert(len(t53) == 1 && t53[0] == wantType, "reply type is not OFFER for DISCOVER / ACK for REQUEST")
 	// ---- the reply carries what userspace sends to this subscriber right now ----
+	if fwho != who {
+		vReach("tx")
+		return // userspace keys by MAC; only the lookup itself is compared for a replaced CPE
+	}
 	var us *dhcpv4.DHCPv4
 	if mt == 1 {
-		us, err = s.handleDiscover(verifV4Plain(dhcpv4.MessageTypeDiscover, who))
+		us, err = s.handleDiscover(relay(verifV4Plain(dhcpv4.MessageTypeDiscover, who), true))
 	} else {
-		r2 := verifV4Plain(dhcpv4.MessageTypeRequest, who)
+		r2 := relay(verifV4Plain(dhcpv4.MessageTypeRequest, who), true)
 		r2.UpdateOption(dhcpv4.OptRequestedIPAddress(off.YourIPAddr))
 		us, err = s.handleRequest(r2)
 	}
